@@ -398,6 +398,20 @@ let run_cfg id rest =
      | _ -> id ^ " err")
   | _ -> id ^ " bad-case"
 
+(* ---- PARSE ---- *)
+let run_parse id rest =
+  match split_on ' ' rest with
+  | [_h; _kind; hx] ->
+    let bytes = if hx = "-" then [] else hexbytes hx in
+    (match Parser.parse_stream bytes with
+     | None -> id ^ " err"
+     | Some s ->
+       (match Component.stream_bytes s with
+        | Ok b -> Printf.sprintf "%s ok %s" id (hex_of_bytes b)
+        | Err _ -> id ^ " ok write-err"
+        | Panic _ -> id ^ " ok write-panic"))
+  | _ -> id ^ " bad-case"
+
 let run_line (line : string) : string =
   match split_on ' ' line with
   | stream :: id :: _ ->
@@ -414,6 +428,7 @@ let run_line (line : string) : string =
        | "FAIL" -> run_fail id rest
        | "SRC" -> run_src id rest
        | "CFG" -> run_cfg id rest
+       | "PARSE" -> run_parse id rest
        | "RICE" -> run_rice id rest
        | _ -> id ^ " unknown-stream")
      with Stack_overflow -> id ^ " model-stack-overflow")
